@@ -16,7 +16,8 @@ Inductive cls := cSO2 | cSE2 | cSO3 | cSE3 | cUQ | cTw2 | cTw3.
    defect beyond the 1e-6 band.  Reflect: orthogonal with determinant -1.  BadRow: last row of a homogeneous matrix
    is not (0,..,0,1).  NotAlgebra: 4x4 / 3x3 given to a twist class that is not an augmented skew-symmetric matrix.
    WrongShape: an array of a shape the class has no use for.  AltForm: a documented alternative argument form
-   (SO2(vector of angles), SE2(2- or 3-vector), SE3(3-vector), SE3(Nx3 translations)) -- not an invalid value. *)
+   (SO2(vector of angles), SE2(2- or 3-vector), SE3(3-vector), SE3(Nx3 translations), UnitQuaternion(Nx4 rows, N <> 4))
+   -- not an invalid value. *)
 Inductive tag := Valid | NotOrtho | Reflect | BadRow | NotAlgebra | WrongShape | AltForm.
 Inductive shape := Sq (n : nat) | Vec (n : nat) | Rect (r c : nat) | NonArray.   (* NonArray: a list element that is no ndarray *)
 Inductive item := Arr (s : shape) (t : tag).
@@ -25,7 +26,8 @@ Inductive result (A : Type) := Ok (a : A) | Err (e : exc).
 Arguments Ok {A} a. Arguments Err {A} e.
 (* an element of .data:  Elt: the supplied array itself (or, UnitQuaternion, its renormalisation);  Conv: converted from the
    supplied array (r2q of a matrix, vexa of a twist matrix);  Made: built by the class from an alternative form;
-   NoneElt: None;  NormFloat: a float (the norm of a row) *)
+   NoneElt: None;  NormFloat: a float.  Since the fixes f16dbda / 21d6c6d / c16e6a7 the model never produces NoneElt or
+   NormFloat; they stay in the vocabulary of the table correspondence so that a regression is reported. *)
 Inductive slot := Elt (it : item) | Conv (it : item) | Made | NoneElt | NormFloat.
 Inductive argform := Bare (it : item) | Seq (l : list item).   (* Seq: list or tuple *)
 
@@ -55,9 +57,9 @@ Definition any_vec (s : shape) : option nat :=
   | _ => None end.
 
 (* ---- decisions of the class-level validity tests on tagged arrays (justified in Props/C07_bridge.v) ---- *)
-(* base.isR accepts reflections: det(R R') > 0 *)
-Definition rot_ok (t : tag) : bool := match t with Valid | Reflect => true | _ => false end.
-Definition hom_ok (t : tag) : bool := match t with Valid | Reflect => true | _ => false end.
+(* base.isR tests det(R) > 0 (fix 8457767): reflections are rejected *)
+Definition rot_ok (t : tag) : bool := match t with Valid => true | _ => false end.
+Definition hom_ok (t : tag) : bool := match t with Valid => true | _ => false end.
 Definition unit_ok (t : tag) : bool := match t with Valid => true | _ => false end.
 Definition alg_ok (t : tag) : bool := match t with Valid => true | _ => false end.
 
@@ -82,8 +84,8 @@ Definition stored (c : cls) (it : item) : slot :=
 Definition is_pose (c : cls) : bool := match c with cSO2 | cSE2 | cSO3 | cSE3 => true | _ => false end.
 Definition is_twist (c : cls) : bool := match c with cTw2 | cTw3 => true | _ => false end.
 
-(* SMUserList._import returns None for a rejected value (pose classes, UnitQuaternion); Twist._import raises TypeError *)
-Definition import_pose (c : cls) (it : item) : slot := if accept c it then stored c it else NoneElt.
+(* SMUserList._import returns None for a rejected value (pose classes, UnitQuaternion) and the list path of arghandler
+   raises ValueError when any element came back None (fix f16dbda); Twist._import raises TypeError itself *)
 
 (* ---- constructor fall-through after arghandler returned False for a bare ndarray ---- *)
 Definition fallthrough (c : cls) (it : item) : result (list slot) :=
@@ -98,17 +100,18 @@ Definition fallthrough (c : cls) (it : item) : result (list slot) :=
            | [_] => Err IndexError            (* x.shape[1] on a 1-D array *)
            | [r; 3] => Ok (repeat Made r)
            | _ => Err ValueError end
-  | cSE2 =>                                   (* dispatch on len(x): 2 -> transl2(x) (returns None for a matrix), 3 -> trot2(x[2], t=x[:2]) *)
+  | cSE2 =>                                   (* dispatch on len(x): 2 -> transl2(x) (raises ValueError for a matrix, fix c16e6a7), 3 -> trot2(x[2], t=x[:2]) *)
       match dims s with
-      | [2] => Ok [Made] | [2; 1] => Ok [Made] | [2; _] => Ok [NoneElt]
+      | [2] => Ok [Made] | [2; 1] => Ok [Made]
       | [3] => Ok [Made] | [3; _] => Err TypeError
       | _ => Err ValueError end
-  | cUQ =>                                    (* isrot -> r2q ; ishom -> r2q(t2r) ; s.shape[1] == 4 -> [qnorm(x) for x in s] (sic) *)
+  | cUQ =>                                    (* isrot -> r2q ; ishom -> r2q(t2r) ; s.shape[1] == 4 -> [unit(x) for x in s] (fix 21d6c6d) *)
       match dims s with
       | [_] => Err IndexError
       | [3; 3] => if rot_ok t then Ok [Conv it] else Err ValueError
-      | [4; 4] => if hom_ok t then Ok [Conv it] else Ok (repeat NormFloat 4)
-      | [r; 4] => Ok (repeat NormFloat r)
+      | [4; 4] => if hom_ok t then Ok [Conv it]
+                  else Ok (repeat (Conv it) 4)   (* STILL OPEN: a 4x4 that fails ishom is read as 4 quaternion rows and normalised *)
+      | [r; 4] => Ok (repeat Made r)             (* N x 4: the normalised rows *)
       | _ => Err ValueError end
   | cTw2 | cTw3 => Err TypeError              (* not reached: _import raised already *)
   end.
@@ -119,13 +122,14 @@ Definition ctor (c : cls) (a : argform) : result (list slot) :=
       if accept c it then Ok [stored c it]
       else if is_twist c then Err TypeError else fallthrough c it
   | Seq [] => Err IndexError                   (* arg[0] *)
-  | Seq l =>                                   (* isinstance(arg[0], ndarray):  self.data = [self._import(x) for x in arg] *)
-      if is_pose c then Ok (map (import_pose c) l)                 (* None elements stay in .data, arghandler returns True *)
-      else if is_twist c then
+  | Seq l =>                                   (* isinstance(arg[0], ndarray):  data = [self._import(x) for x in arg] *)
+      if is_twist c then
         if forallb (accept c) l then Ok (map (stored c) l) else Err TypeError       (* Twist._import raises *)
-      else                                     (* UnitQuaternion: isvalid does x.shape on every element; then base.unit(None) raises *)
+      else if is_pose c then
+        if forallb (accept c) l then Ok (map (stored c) l) else Err ValueError      (* any None -> ValueError *)
+      else                                     (* UnitQuaternion: isvalid does x.shape on every element first *)
         if negb (forallb (fun it => is_array (ish it)) l) then Err AttributeError
-        else if forallb (accept c) l then Ok (map (stored c) l) else Err TypeError
+        else if forallb (accept c) l then Ok (map (stored c) l) else Err ValueError
   end.
 
 (* ---- validity of what an object holds: every element is (derived from) a member of the group ---- *)
@@ -151,7 +155,7 @@ Definition applicable (c : cls) (it : item) : bool :=
            | [4] => tag_eqb t Valid || tag_eqb t NotOrtho
            | [3; 3] => grp_tag false t
            | [4; 4] => grp_tag true t
-           | [_; 4] => tag_eqb t Valid || tag_eqb t NotOrtho
+           | [_; 4] => tag_eqb t AltForm
            | _ => tag_eqb t WrongShape end
   | cTw3 => if dims_eqb (dims s) [6] then tag_eqb t Valid
             else if is_sq s 4 then tag_eqb t Valid || tag_eqb t NotAlgebra else tag_eqb t WrongShape
